@@ -368,11 +368,12 @@ impl<'a> PartialEq for QName<'a> {
     }
 }
 //@extract events::BytesStart | src/events/mod.rs :: struct BytesStart | serves=C01
+//@rewrite-all pub(crate) ==> pub
  pub struct BytesStart<'a> {
     /// content of the element, before any utf8 conversion
-    pub(crate) buf: Cow<'a, [u8]>,
+    pub buf: Cow<'a, [u8]>,
     /// end of the element name, the name starts at that the start of `buf`
-    pub(crate) name_len: usize,
+    pub name_len: usize,
 }
 //@end
 //@extract events::BytesEnd | src/events/mod.rs :: struct BytesEnd | serves=C01
